@@ -26,6 +26,7 @@ import (
 	"github.com/cosmos/cosmos-sdk/testutil/mock"
 	simtestutil "github.com/cosmos/cosmos-sdk/testutil/sims"
 	sdk "github.com/cosmos/cosmos-sdk/types"
+	"github.com/cosmos/cosmos-sdk/types/module"
 	"github.com/cosmos/cosmos-sdk/types/tx/signing"
 	authsigning "github.com/cosmos/cosmos-sdk/x/auth/signing"
 	authtypes "github.com/cosmos/cosmos-sdk/x/auth/types"
@@ -51,6 +52,7 @@ type Chain struct {
 	Time    time.Time
 	InBlock bool
 	Genesis []byte
+	LastExport []byte
 	ValSet  *tmtypes.ValidatorSet
 }
 
@@ -117,6 +119,53 @@ func NewChain(nAccts int, balances []GenBalance, customGenesis map[string]json.R
 	a.Commit()
 	c.Height = 1
 	return c
+}
+
+// ExportImport exports the application state, validates the custom modules' genesis, and continues on a
+// fresh application (new DB) initialised from the exported state.  Returns "X ok" | "X invalid <module>" | "X panic <stage>".
+func (c *Chain) ExportImport() (result string) {
+	stage := "export"
+	defer func() {
+		if r := recover(); r != nil {
+			result = "X panic " + stage
+		}
+	}()
+	exported, err := c.App.ExportAppStateAndValidators(false, nil, nil)
+	if err != nil {
+		return "X invalid export"
+	}
+	var gs map[string]json.RawMessage
+	must(json.Unmarshal(exported.AppState, &gs))
+	stage = "validate"
+	enc := app.MakeEncodingConfig()
+	for _, m := range []string{"aol", "did", "pnft", "burn"} {
+		for _, b := range app.ModuleBasics {
+			if hg, ok := b.(module.HasGenesisBasics); ok && b.Name() == m {
+				if err := hg.ValidateGenesis(enc.Codec, enc.TxConfig, gs[m]); err != nil {
+					return "X invalid " + m
+				}
+			}
+		}
+	}
+	stage = "import"
+	home, err := os.MkdirTemp("", "hx-home-")
+	must(err)
+	db := dbm.NewMemDB()
+	a := newApp(db, home)
+	a.InitChain(abci.RequestInitChain{
+		ChainId:         chainID,
+		Validators:      []abci.ValidatorUpdate{},
+		ConsensusParams: exported.ConsensusParams,
+		AppStateBytes:   exported.AppState,
+		Time:            c.Time,
+		InitialHeight:   exported.Height,
+	})
+	a.Commit()
+	os.RemoveAll(c.Home)
+	c.App, c.DB, c.Home = a, db, home
+	c.Height = exported.Height
+	c.LastExport = exported.AppState
+	return "X ok"
 }
 
 func (c *Chain) Close() {
